@@ -1,14 +1,18 @@
 /-
-  C19 beyond tokens: nested COMPLEX TERMS round-trip.
+  C19 beyond tokens: NESTED COMPLEX TERMS AND LISTS round-trip.
 
-  `Canon d T t`: T is the canonical text of the term t, nested at most d deep — integers, atoms that are plain words,
-  variables, and complex terms `fn(T1, ..., Tn)` of canonical texts.  Proved: `parse_term T = t` (`parse_canon`), by
-  induction on the derivation, from the several-argument theorem of `Lemmas/ParseArgsMulti.lean`; and the printer writes t
-  as T (`show_canon`).  What is carried along (`TextInv`): the text is trimmed, has no backslash, its parentheses are closed
-  from any depth, its commas lie inside its own parentheses, and no operator character is followed by a blank (so
-  `parse_term` finds no arithmetic infix).
+  `Canon d T t`: T is the canonical text of the term t, nested at most d deep — integers, atoms that are plain words or words
+  with blanks between them, variables, `$_`, complex terms `fn(T1, ..., Tn)`, the empty list `[]`, lists `[T1, ..., Tn]` and
+  lists with a tail variable `[T1, ..., Tn | $V]` of canonical texts.  Proved: `parse_term T = t` (`parse_canon`), by induction
+  on the derivation, from the several-argument theorem of `Lemmas/ParseArgsMulti.lean` and the several-element theorems of
+  `Lemmas/ParseListMulti.lean` / `ParseListTail.lean`; and the printer writes t as T (`show_canon`).  What is carried along
+  (`TextInv`): the text is trimmed, has no backslash and no quote, its parentheses and brackets are closed from any depth, its
+  commas lie inside its own parentheses or brackets, it has no bar outside them, and no operator character is followed by a
+  blank (so `parse_term` finds no arithmetic infix).
 -/
 import SuironVerif.Lemmas.ParseArgsMulti
+import SuironVerif.Lemmas.ParseListMulti
+import SuironVerif.Lemmas.ParseListTail
 import SuironVerif.Lemmas.ParseInt
 namespace Suiron.Parse
 open Suiron
@@ -132,13 +136,26 @@ structure TextInv (T : Text) : Prop where
   nobs : ∀ c ∈ T, c ≠ '\\'
   closedAll : ∀ r s : Int, dpScan T ⟨r, s, false⟩ = ⟨r, s, false⟩
   noTop0 : noTopComma T ⟨0, 0, false⟩ = true
-  deep : ∀ (r s : Int), 0 ≤ r → noTopComma T ⟨r + 1, s, false⟩ = true
+  deep : ∀ (r s : Int), 0 ≤ r → 0 ≤ s → 0 < r + s → noTopComma T ⟨r, s, false⟩ = true
   ops : opOK T = true
   lastOK : ∀ c, T.getLast? = some c → isOp c = false
   noQuote : ∀ c ∈ T, c ≠ '"'
+  barAll : ∀ (r s : Int), 0 ≤ r → 0 ≤ s → noTopBar T ⟨r, s, false⟩ = true
 
 theorem TextInv.argOK {T : Text} (h : TextInv T) : ArgOK T :=
   ⟨h.trimmed, h.nonempty, h.nobs, h.noTop0, h.closedAll 0 0, noInfix_of_opOK T h.ops⟩
+
+theorem noTopBar_of_noBar : ∀ (T : Text) (d : Dp), (∀ c ∈ T, c ≠ '|') → noTopBar T d = true
+  | [], _, _ => rfl
+  | c :: T, d, h => by
+    have : (c == '|') = false := by simpa using h c (by simp)
+    simp only [noTopBar, topBar, this, Bool.false_and, Bool.not_false, Bool.true_and]
+    exact noTopBar_of_noBar T _ (fun x hx => h x (by simp [hx]))
+
+theorem noTopBar_append : ∀ (a b : Text) (d : Dp), noTopBar (a ++ b) d = (noTopBar a d && noTopBar b (dpScan a d))
+  | [], b, d => by simp [noTopBar, dpScan]
+  | c :: a, b, d => by
+    simp only [List.cons_append, noTopBar, dpScan, noTopBar_append a b (dpStep c d), Bool.and_assoc]
 
 /-- a token text never moves the depth and has no comma -/
 theorem plain_scan : ∀ (T : Text), (∀ c ∈ T, tokChar c = true) → ∀ (r s : Int),
@@ -157,8 +174,9 @@ theorem plain_scan : ∀ (T : Text), (∀ c ∈ T, tokChar c = true) → ∀ (r 
 theorem plain_inv {T : Text} (h : TokenText T) (hops : opOK T = true) (hlast : ∀ c, T.getLast? = some c → isOp c = false) :
     TextInv T :=
   ⟨h.trim, h.1, fun c hc => (tokChar_facts (h.2 c hc)).2.2.2.2.2.2.2.1, fun r s => (plain_scan T h.2 r s).1,
-   (plain_scan T h.2 0 0).2, fun r s _ => (plain_scan T h.2 _ s).2, hops, hlast,
-   fun c hc => (tokChar_facts (h.2 c hc)).2.1⟩
+   (plain_scan T h.2 0 0).2, fun r s _ _ _ => (plain_scan T h.2 r s).2, hops, hlast,
+   fun c hc => (tokChar_facts (h.2 c hc)).2.1,
+   fun r s _ _ => noTopBar_of_noBar T _ (fun c hc => (tokChar_facts (h.2 c hc)).2.2.2.2.2.2.2.2.1)⟩
 
 /-! ### the leaves -/
 
@@ -304,30 +322,31 @@ theorem qCount_noquote : ∀ (T : Text) (d : Dp), (∀ c ∈ T, c ≠ '"') → q
 /-- the arguments, joined: what is carried along for each is carried along for all -/
 theorem joinArgs_inv : ∀ (as : List Text), as ≠ [] → (∀ a ∈ as, TextInv a) →
     (∀ r s : Int, dpScan (joinArgs as) ⟨r, s, false⟩ = ⟨r, s, false⟩) ∧
-    (∀ (r s : Int), 0 ≤ r → noTopComma (joinArgs as) ⟨r + 1, s, false⟩ = true) ∧
+    (∀ (r s : Int), 0 ≤ r → 0 ≤ s → 0 < r + s → noTopComma (joinArgs as) ⟨r, s, false⟩ = true) ∧
     opOK (joinArgs as) = true ∧ (∀ c, (joinArgs as).getLast? = some c → isOp c = false) ∧
-    (∀ c ∈ joinArgs as, c ≠ '"')
+    (∀ c ∈ joinArgs as, c ≠ '"') ∧ (∀ (r s : Int), 0 ≤ r → 0 ≤ s → noTopBar (joinArgs as) ⟨r, s, false⟩ = true)
   | [], h, _ => absurd rfl h
   | [a], _, h => by
     have ha := h a (by simp)
-    simpa [joinArgs] using ⟨ha.closedAll, ha.deep, ha.ops, ha.lastOK, ha.noQuote⟩
+    simpa [joinArgs] using ⟨ha.closedAll, ha.deep, ha.ops, ha.lastOK, ha.noQuote, ha.barAll⟩
   | a :: b :: rest, _, h => by
     have ha := h a (by simp)
-    obtain ⟨i1, i2, i3, i4, i5⟩ := joinArgs_inv (b :: rest) (by simp) (fun x hx => h x (by simp [hx]))
+    obtain ⟨i1, i2, i3, i4, i5, i6⟩ := joinArgs_inv (b :: rest) (by simp) (fun x hx => h x (by simp [hx]))
     have hsep : ∀ r s : Int, dpStep ' ' (dpStep ',' ⟨r, s, false⟩) = ⟨r, s, false⟩ := by intro r s; simp [dpStep]
-    refine ⟨?_, ?_, ?_, ?_, ?_⟩
+    refine ⟨?_, ?_, ?_, ?_, ?_, ?_⟩
     · intro r s
       simp only [joinArgs, dpScan_append, ha.closedAll, dpScan, hsep, i1]
-    · intro r s hr
-      simp only [joinArgs, noTopComma_append, ha.deep r s hr, ha.closedAll, noTopComma, Bool.true_and]
-      have hr1 : (r + 1 == 0) = false := by
-        have : r + 1 ≠ 0 := by omega
-        simpa using this
-      have h1 : topComma ',' ⟨r + 1, s, false⟩ = false := by simp [topComma, hr1]
-      have h2 : dpStep ',' ⟨r + 1, s, false⟩ = ⟨r + 1, s, false⟩ := by simp [dpStep]
-      have h3 : topComma ' ' ⟨r + 1, s, false⟩ = false := by simp [topComma]
-      have h4 : dpStep ' ' ⟨r + 1, s, false⟩ = ⟨r + 1, s, false⟩ := by simp [dpStep]
-      simp only [h1, h2, h3, h4, Bool.not_false, Bool.true_and, i2 r s hr]
+    · intro r s hr hs hrs
+      simp only [joinArgs, noTopComma_append, ha.deep r s hr hs hrs, ha.closedAll, noTopComma, Bool.true_and]
+      have h1 : topComma ',' ⟨r, s, false⟩ = false := by
+        simp only [topComma, Bool.not_false, Bool.and_true, beq_self_eq_true, Bool.true_and, Bool.and_eq_false_iff, beq_eq_false_iff_ne, ne_eq]
+        by_cases h0 : r = 0
+        · right; omega
+        · left; exact h0
+      have h2 : dpStep ',' ⟨r, s, false⟩ = ⟨r, s, false⟩ := by simp [dpStep]
+      have h3 : topComma ' ' ⟨r, s, false⟩ = false := by simp [topComma]
+      have h4 : dpStep ' ' ⟨r, s, false⟩ = ⟨r, s, false⟩ := by simp [dpStep]
+      simp only [h1, h2, h3, h4, Bool.not_false, Bool.true_and, i2 r s hr hs hrs]
     · simp only [joinArgs]
       apply opOK_append _ _ ha.ops _ ha.lastOK
       simp only [opOK, List.head?_cons]
@@ -345,17 +364,24 @@ theorem joinArgs_inv : ∀ (as : List Text), as ≠ [] → (∀ a ∈ as, TextIn
       · subst hc; decide
       · subst hc; decide
       · exact i5 c hc
+    · intro r s hr hs
+      simp only [joinArgs, noTopBar_append, ha.barAll r s hr hs, ha.closedAll, noTopBar, Bool.true_and]
+      have h1 : topBar ',' ⟨r, s, false⟩ = false := by simp [topBar]
+      have h2 : dpStep ',' ⟨r, s, false⟩ = ⟨r, s, false⟩ := by simp [dpStep]
+      have h3 : topBar ' ' ⟨r, s, false⟩ = false := by simp [topBar]
+      have h4 : dpStep ' ' ⟨r, s, false⟩ = ⟨r, s, false⟩ := by simp [dpStep]
+      simp only [h1, h2, h3, h4, Bool.not_false, Bool.true_and, i6 r s hr hs]
 
 /-- the text of a complex term carries along what the texts of its arguments carry along -/
 theorem cplx_inv {fn : Text} (hf : Word fn) (as : List Text) (hne : as ≠ []) (h : ∀ a ∈ as, TextInv a) :
     TextInv (fn ++ '(' :: joinArgs as ++ [')']) := by
-  obtain ⟨j1, j2, j3, j4, j5⟩ := joinArgs_inv as hne h
+  obtain ⟨j1, j2, j3, j4, j5, j6⟩ := joinArgs_inv as hne h
   have hfn := word_inv hf
   have hjne : joinArgs as ≠ [] := joinArgs_ne_nil as hne (fun a ha => (h a ha).nonempty)
   have hopen : ∀ r s : Int, dpStep '(' ⟨r, s, false⟩ = ⟨r + 1, s, false⟩ := by intro r s; simp [dpStep]
   have hclose : ∀ r s : Int, dpStep ')' ⟨r + 1, s, false⟩ = ⟨r, s, false⟩ := by intro r s; simp [dpStep]
   have hshape : fn ++ '(' :: joinArgs as ++ [')'] = fn ++ ('(' :: (joinArgs as ++ [')'])) := by simp
-  refine ⟨?_, by simp, ?_, ?_, ?_, ?_, ?_, ?_, ?_⟩
+  refine ⟨?_, by simp, ?_, ?_, ?_, ?_, ?_, ?_, ?_, ?_⟩
   · -- trimmed
     obtain ⟨hne', hall⟩ := hf
     cases hfn' : fn with
@@ -383,18 +409,14 @@ theorem cplx_inv {fn : Text} (hf : Word fn) (as : List Text) (hne : as ≠ []) (
   · rw [hshape, noTopComma_append, hfn.noTop0, hfn.closedAll]
     simp only [noTopComma, hopen, Bool.true_and]
     rw [noTopComma_append, j1]
-    have := j2 0 0 (Int.le_refl _)
-    rw [show ((0 : Int) + 1) = 1 from rfl] at this
+    have := j2 1 0 (by omega) (by omega) (by omega)
     simp [this, noTopComma, topComma]
-  · intro r s hr
-    rw [hshape, noTopComma_append, hfn.deep r s hr, hfn.closedAll]
+  · intro r s hr hs hrs
+    rw [hshape, noTopComma_append, hfn.deep r s hr hs hrs, hfn.closedAll]
     simp only [noTopComma, hopen, Bool.true_and]
     rw [noTopComma_append, j1]
-    have := j2 (r + 1) s (by omega)
-    have hr1 : (r + 1 == 0) = false := by
-      have : r + 1 ≠ 0 := by omega
-      simpa using this
-    simp [this, noTopComma, topComma, hr1]
+    have := j2 (r + 1) s (by omega) hs (by omega)
+    simp [this, noTopComma, topComma]
   · rw [hshape]
     apply opOK_append _ _ hfn.ops _ hfn.lastOK
     simp only [opOK, Bool.and_eq_true, Bool.not_eq_true']
@@ -412,6 +434,327 @@ theorem cplx_inv {fn : Text} (hf : Word fn) (as : List Text) (hne : as ≠ []) (
     · rcases hc with hc | hc
       · subst hc; decide
       · cases hc
+  · intro r s hr hs
+    rw [hshape, noTopBar_append, hfn.barAll r s hr hs, hfn.closedAll]
+    simp only [noTopBar, hopen, Bool.true_and]
+    rw [noTopBar_append, j1]
+    have := j6 (r + 1) s (by omega) hs
+    simp [this, noTopBar, topBar]
+
+/-! ### atoms with blanks, and `$_` -/
+
+/-- letters and single or several blanks, beginning and ending with a letter: `New York` -/
+structure Phrase (s : Text) : Prop where
+  chars : ∀ c ∈ s, isLetter c = true ∨ c = ' '
+  first : ∃ a t, s = a :: t ∧ isLetter a = true
+  last : ∀ c, s.getLast? = some c → isLetter c = true
+
+theorem phrase_char {c : Char} (h : isLetter c = true ∨ c = ' ') :
+    isDigit c = false ∧ isOp c = false ∧ c ≠ '"' ∧ c ≠ '[' ∧ c ≠ ']' ∧ c ≠ '(' ∧ c ≠ ')' ∧ c ≠ ',' ∧ c ≠ '\\' ∧ c ≠ '.' ∧ c ≠ '|' ∧
+    c ≠ '+' ∧ c ≠ '-' := by
+  rcases h with h | h
+  · have hf := letter_facts h
+    have ht := tokChar_facts hf.1
+    have ho := hf.2.2.1
+    simp only [isOp, Bool.or_eq_false_iff, beq_eq_false_iff_ne, ne_eq] at ho
+    exact ⟨hf.2.1, hf.2.2.1, hf.2.2.2.2.2.1, hf.2.2.2.2.2.2.1, hf.2.2.2.2.2.2.2.1, hf.2.2.2.2.2.2.2.2.1, hf.2.2.2.2.2.2.2.2.2.1,
+      hf.2.2.2.2.2.2.2.2.2.2.1, hf.2.2.2.2.2.2.2.2.2.2.2.1, hf.2.2.2.2.2.2.2.2.2.2.2.2.1, ht.2.2.2.2.2.2.2.2.1, ho.1.1.1, ho.1.1.2⟩
+  · subst h; decide
+
+theorem phrase_scan : ∀ (T : Text), (∀ c ∈ T, isLetter c = true ∨ c = ' ') → ∀ (r s : Int),
+    dpScan T ⟨r, s, false⟩ = ⟨r, s, false⟩ ∧ noTopComma T ⟨r, s, false⟩ = true
+  | [], _, r, s => ⟨rfl, rfl⟩
+  | c :: T, h, r, s => by
+    obtain ⟨_, _, h2, h3, h4, h5, h6, h7, _⟩ := phrase_char (h c (by simp))
+    have hstep : dpStep c ⟨r, s, false⟩ = ⟨r, s, false⟩ := by
+      simp [dpStep, h2, h3, h4, h5, h6]
+    have ih := phrase_scan T (fun x hx => h x (by simp [hx])) r s
+    simp only [dpScan, noTopComma, hstep, ih.1, ih.2, topComma, Bool.and_true]
+    refine ⟨trivial, ?_⟩
+    have : (c == ',') = false := by simpa using h7
+    simp [this]
+
+theorem phrase_inv {s : Text} (h : Phrase s) : TextInv s := by
+  obtain ⟨a, t, hs, ha⟩ := h.first
+  have hne : s ≠ [] := by rw [hs]; simp
+  refine ⟨?_, hne, fun c hc => (phrase_char (h.chars c hc)).2.2.2.2.2.2.2.2.1, fun r s' => (phrase_scan s h.chars r s').1,
+    (phrase_scan s h.chars 0 0).2, fun r s' _ _ _ => (phrase_scan s h.chars r s').2,
+    opOK_noops s (fun c hc => (phrase_char (h.chars c hc)).2.1), fun c hc => (letter_facts (h.last c hc)).2.2.1,
+    fun c hc => (phrase_char (h.chars c hc)).2.2.1,
+    fun r s' _ _ => noTopBar_of_noBar s _ (fun c hc => (phrase_char (h.chars c hc)).2.2.2.2.2.2.2.2.2.2.1)⟩
+  apply trim_of_ends hne
+  · intro b hb; rw [hs] at hb; simp at hb; subst hb; exact (letter_facts ha).2.2.2.1
+  · intro b hb; exact (letter_facts (h.last b hb)).2.2.2.1
+
+theorem flagLoop_phrase (b : Bool) : ∀ (s : Text) (i : Nat) (acc : Bool × Bool × Bool), (∀ c ∈ s, isLetter c = true ∨ c = ' ') →
+    flagLoop b s i acc = (acc.1, acc.2.1 || !s.isEmpty, acc.2.2)
+  | [], _, acc, _ => by simp [flagLoop]
+  | c :: cs, i, acc, h => by
+    obtain ⟨hd, _, _, _, _, _, _, _, _, hp, _, hplus, hminus⟩ := phrase_char (h c (by simp))
+    have hsign : (c == '+' || c == '-') = false := by simp [hplus, hminus]
+    rw [flagLoop, flagLoop_phrase b cs (i + 1) _ (fun x hx => h x (by simp [hx]))]
+    have hp' : (c == '.') = false := by simpa using hp
+    simp [flagStep, hd, hp', hsign]
+
+/-- an atom of words and blanks parses to itself -/
+theorem parseTerm_phrase (po : POps) (f : Nat) {s : Text} (h : Phrase s) : parseTerm po (f + 2) s = .ok (.atom (str s)) := by
+  have hI := phrase_inv h
+  rw [show f + 2 = (f + 1) + 1 from rfl, parseTerm_structured po (f + 1) s hI.trimmed hI.nobs (noInfix_of_opOK s hI.ops),
+    qCount_noquote s _ hI.noQuote, termFlags_eq, flagLoop_phrase _ _ _ _ h.chars]
+  simp only [checkQuotes_zero, Res.bind_ok, makeTerm, hI.trimmed]
+  obtain ⟨first, rest, hs, ha⟩ := h.first
+  subst hs
+  have hf := letter_facts ha
+  have h1 : (first == '$') = false := by simpa using hf.2.2.2.2.1
+  simp only [h1, Bool.false_eq_true, if_false, Bool.false_and, List.isEmpty_cons, Bool.not_false, Bool.or_true, Bool.not_true, Bool.and_false]
+  by_cases hlen : (first :: rest).length ≥ 2
+  · simp only [hlen, if_true]
+    cases hl : (first :: rest).getLast? with
+    | none => simp at hl
+    | some last =>
+      have hla := letter_facts (h.last last hl)
+      have e1 : (first == '"') = false := by simpa using hf.2.2.2.2.2.1
+      have e2 : (first == '[') = false := by simpa using hf.2.2.2.2.2.2.1
+      have e3 : (last == ')') = false := by simpa using hla.2.2.2.2.2.2.2.2.2.1
+      simp [e1, e2, e3]
+  · simp only [hlen, if_false]
+
+theorem anon_token : TokenText ['$', '_'] := ⟨by simp, by decide⟩
+
+theorem anon_inv : TextInv ['$', '_'] := plain_inv anon_token (by decide) (by decide)
+
+theorem parseTerm_anon (po : POps) (f : Nat) : parseTerm po (f + 2) ['$', '_'] = .ok .anon := by
+  rw [parseTerm_token po (f + 1) anon_token]
+  simp [makeTerm, anon_token.trim]
+
+/-! ### lists -/
+
+theorem TextInv.elemOK {T : Text} (h : TextInv T) : ElemOK T := ⟨h.argOK, h.barAll 0 0 (Int.le_refl _) (Int.le_refl _)⟩
+
+/-- a bracketed text carries along what its inside carries along -/
+theorem bracket_inv (X : Text) (hne : X ≠ []) (k0 : ∀ c ∈ X, c ≠ '\\')
+    (k1 : ∀ r s : Int, dpScan X ⟨r, s, false⟩ = ⟨r, s, false⟩)
+    (k2 : ∀ (r s : Int), 0 ≤ r → 0 ≤ s → 0 < r + s → noTopComma X ⟨r, s, false⟩ = true)
+    (k3 : opOK X = true) (k4 : ∀ c, X.getLast? = some c → isOp c = false) (k5 : ∀ c ∈ X, c ≠ '"')
+    (k6 : ∀ (r s : Int), 0 ≤ r → 0 ≤ s → 0 < r + s → noTopBar X ⟨r, s, false⟩ = true) : TextInv ('[' :: X ++ [']']) := by
+  have hopen : ∀ r s : Int, dpStep '[' ⟨r, s, false⟩ = ⟨r, s + 1, false⟩ := by intro r s; simp [dpStep]
+  have hclose : ∀ r s : Int, dpStep ']' ⟨r, s + 1, false⟩ = ⟨r, s, false⟩ := by intro r s; simp [dpStep]
+  have hshape : '[' :: X ++ [']'] = '[' :: (X ++ [']']) := rfl
+  have hmem : ∀ c ∈ '[' :: X ++ [']'], c = '[' ∨ c ∈ X ∨ c = ']' := by
+    intro c hc
+    simp only [List.cons_append, List.mem_cons, List.mem_append, List.mem_nil_iff, or_false] at hc
+    exact hc
+  refine ⟨?_, by simp, ?_, ?_, ?_, ?_, ?_, ?_, ?_, ?_⟩
+  · apply trim_of_ends (by simp)
+    · intro b hb; simp at hb; subst hb; decide
+    · intro b hb
+      rw [show ('[' :: X ++ [']']) = ('[' :: X) ++ [']'] from rfl, List.getLast?_concat] at hb
+      simp at hb; subst hb; decide
+  · intro c hc
+    rcases hmem c hc with e | e | e
+    · subst e; decide
+    · exact k0 c e
+    · subst e; decide
+  · intro r s
+    rw [hshape]
+    simp only [dpScan, hopen]
+    rw [dpScan_append, k1]
+    simp only [dpScan, hclose]
+  · rw [hshape]
+    simp only [noTopComma, hopen]
+    rw [noTopComma_append, k1]
+    have := k2 0 1 (by omega) (by omega) (by omega)
+    rw [show ((0 : Int) + 1) = 1 from rfl]
+    simp [this, noTopComma, topComma]
+  · intro r s hr hs hrs
+    rw [hshape]
+    simp only [noTopComma, hopen]
+    rw [noTopComma_append, k1]
+    have := k2 r (s + 1) hr (by omega) (by omega)
+    simp [this, noTopComma, topComma]
+  · rw [hshape]
+    simp only [opOK, Bool.and_eq_true, Bool.not_eq_true']
+    refine ⟨by simp [isOp], ?_⟩
+    exact opOK_append _ _ k3 (by simp [opOK, isOp]) k4
+  · intro c hc
+    rw [show ('[' :: X ++ [']']) = ('[' :: X) ++ [']'] from rfl, List.getLast?_concat] at hc
+    simp at hc; subst hc; decide
+  · intro c hc
+    rcases hmem c hc with e | e | e
+    · subst e; decide
+    · exact k5 c e
+    · subst e; decide
+  · intro r s hr hs
+    rw [hshape]
+    simp only [noTopBar, hopen]
+    rw [noTopBar_append, k1]
+    have := k6 r (s + 1) hr (by omega) (by omega)
+    simp [this, noTopBar, topBar]
+
+/-- the text of a list carries along what the texts of its elements carry along -/
+theorem list_inv (as : List Text) (hne : as ≠ []) (h : ∀ a ∈ as, TextInv a) : TextInv ('[' :: joinArgs as ++ [']']) := by
+  obtain ⟨j1, j2, j3, j4, j5, j6⟩ := joinArgs_inv as hne h
+  exact bracket_inv (joinArgs as) (joinArgs_ne_nil as hne (fun a ha => (h a ha).nonempty))
+    (joinArgs_nobs as (fun a ha => (h a ha).nobs)) j1 j2 j3 j4 j5 (fun r s hr hs _ => j6 r s hr hs)
+
+/-- the inside of a list with a tail variable: the elements, ` | `, the variable -/
+def tailInner (as : List Text) (name : Text) : Text := joinArgs as ++ ' ' :: '|' :: ' ' :: '$' :: name
+
+theorem tlist_inv (as : List Text) (hne : as ≠ []) (h : ∀ a ∈ as, TextInv a) {name : Text} (hn : Word name) :
+    TextInv ('[' :: tailInner as name ++ [']']) := by
+  obtain ⟨j1, j2, j3, j4, j5, j6⟩ := joinArgs_inv as hne h
+  have hV := var_inv hn
+  have hsep : ∀ r s : Int, dpStep ' ' (dpStep '|' (dpStep ' ' ⟨r, s, false⟩)) = ⟨r, s, false⟩ := by intro r s; simp [dpStep]
+  have hmem : ∀ c ∈ tailInner as name, c ∈ joinArgs as ∨ c = ' ' ∨ c = '|' ∨ c ∈ '$' :: name := by
+    intro c hc
+    simp only [tailInner, List.mem_append, List.mem_cons] at hc
+    rcases hc with hc | hc | hc | hc | hc
+    · exact Or.inl hc
+    · exact Or.inr (Or.inl hc)
+    · exact Or.inr (Or.inr (Or.inl hc))
+    · exact Or.inr (Or.inl hc)
+    · exact Or.inr (Or.inr (Or.inr (by simpa using hc)))
+  have hshape : tailInner as name = joinArgs as ++ (' ' :: '|' :: ' ' :: ('$' :: name)) := rfl
+  apply bracket_inv
+  · simp [tailInner]
+  · intro c hc
+    rcases hmem c hc with e | e | e | e
+    · exact joinArgs_nobs as (fun a ha => (h a ha).nobs) c e
+    · subst e; decide
+    · subst e; decide
+    · exact hV.nobs c e
+  · intro r s
+    rw [hshape, dpScan_append, j1]
+    simp only [dpScan, hsep]
+    exact hV.closedAll r s
+  · intro r s hr hs hrs
+    rw [hshape, noTopComma_append, j2 r s hr hs hrs, j1]
+    have e1 : dpStep ' ' ⟨r, s, false⟩ = ⟨r, s, false⟩ := by simp [dpStep]
+    have e2 : dpStep '|' ⟨r, s, false⟩ = ⟨r, s, false⟩ := by simp [dpStep]
+    simp only [noTopComma, e1, e2, show topComma ' ' ⟨r, s, false⟩ = false from by simp [topComma],
+      show topComma '|' ⟨r, s, false⟩ = false from by simp [topComma], Bool.not_false, Bool.true_and]
+    exact hV.deep r s hr hs hrs
+  · rw [hshape]
+    apply opOK_append _ _ j3 _ j4
+    have : opOK (' ' :: '|' :: ' ' :: ('$' :: name)) = (opOK ('$' :: name)) := by
+      simp [opOK, isOp]
+    rw [this]; exact hV.ops
+  · intro c hc
+    have hne' : ('$' :: name) ≠ [] := by simp
+    rw [show tailInner as name = (joinArgs as ++ [' ', '|', ' ']) ++ ('$' :: name) from by simp [tailInner],
+      getLast_append_ne _ _ hne'] at hc
+    exact hV.lastOK c hc
+  · intro c hc
+    rcases hmem c hc with e | e | e | e
+    · exact j5 c e
+    · subst e; decide
+    · subst e; decide
+    · exact hV.noQuote c e
+  · intro r s hr hs hrs
+    rw [hshape, noTopBar_append, j6 r s hr hs, j1]
+    have e1 : dpStep ' ' ⟨r, s, false⟩ = ⟨r, s, false⟩ := by simp [dpStep]
+    have e2 : dpStep '|' ⟨r, s, false⟩ = ⟨r, s, false⟩ := by simp [dpStep]
+    have e3 : topBar '|' ⟨r, s, false⟩ = false := by
+      simp only [topBar, Bool.not_false, Bool.and_true, beq_self_eq_true, Bool.true_and, Bool.and_eq_false_iff, beq_eq_false_iff_ne, ne_eq]
+      by_cases h0 : r = 0
+      · right; omega
+      · left; exact h0
+    simp only [noTopBar, e1, e2, e3, show topBar ' ' ⟨r, s, false⟩ = false from by simp [topBar], Bool.not_false, Bool.true_and]
+    exact hV.barAll r s hr hs
+
+/-- the list built from its elements, as `link_front` builds it (each node counts the nodes from itself) -/
+def listOf : List Term → Term
+  | [] => Term.empty
+  | t :: ts => .cons t (listOf ts) (ts.length + 1) false
+
+theorem linkFront_listOf (t : Term) (ts : List Term) : linkFront t false (listOf ts) = .ok (listOf (t :: ts)) := by
+  cases ts with
+  | nil => rfl
+  | cons a rest => simp [listOf, linkFront]
+
+theorem parseR_ok (pt : Text → Res Term) : ∀ (ras : List Text) (ts done : List Term), ras.length = ts.length →
+    (∀ (i : Nat) (h1 : i < ras.length) (h2 : i < ts.length), pt ras[i] = .ok ts[i]) →
+    parseR pt ras (listOf done) = .ok (listOf (ts.reverse ++ done))
+  | [], [], _, _, _ => rfl
+  | [], _ :: _, _, h, _ => by simp at h
+  | _ :: _, [], _, h, _ => by simp at h
+  | a :: ras, t :: ts, done, hl, h => by
+    have h0 := h 0 (by simp) (by simp)
+    simp only [List.getElem_cons_zero] at h0
+    have ih := parseR_ok pt ras ts (t :: done) (by simpa using hl) (fun i h1 h2 => by
+      have := h (i + 1) (by simp; omega) (by simp; omega)
+      simpa using this)
+    simp only [parseR, h0, Res.bind_ok, linkFront_listOf, ih]
+    simp
+
+/-- a bracketed text that carries the invariant goes to the list parser -/
+theorem parseTerm_bracket (po : POps) (g : Nat) (J : Text) (hI : TextInv ('[' :: J ++ [']'])) :
+    parseTerm po (g + 4) ('[' :: J ++ [']']) = parseLinkedList po (g + 2) ('[' :: J ++ [']']) := by
+  have hlast : ('[' :: J ++ [']']).getLast? = some ']' := by
+    rw [show ('[' :: J ++ [']']) = ('[' :: J) ++ [']'] from rfl, List.getLast?_concat]
+  have hlen2 : ('[' :: J ++ [']']).length ≥ 2 := by simp
+  generalize hT : '[' :: J ++ [']'] = T at *
+  rw [show g + 4 = (g + 3) + 1 from rfl, parseTerm_structured po (g + 3) T hI.trimmed hI.nobs (noInfix_of_opOK T hI.ops), qCount_noquote T _ hI.noQuote]
+  simp only [checkQuotes_zero, Res.bind_ok]
+  unfold makeTerm
+  simp only [hI.trimmed]
+  rw [← hT] at hlast hlen2 ⊢
+  simp only [List.cons_append, show (('[' : Char) == '$') = false from by decide, Bool.false_eq_true, if_false] at hlast hlen2 ⊢
+  simp only [hlen2, if_true, hlast, show (('[' : Char) == '"') = false from by decide,
+    show (('[' : Char) == '[') = true from by decide, show ((']' : Char) == ']') = true from by decide, Bool.and_self,
+    Bool.false_eq_true, if_false]
+
+/-- a list over texts that carry the invariant: `parse_term` parses each element with `parse_term`, last element first -/
+theorem parseTerm_list (po : POps) (g : Nat) (as : List Text) (hne : as ≠ []) (hinv : ∀ a ∈ as, TextInv a) :
+    parseTerm po (g + 4) ('[' :: joinArgs as ++ [']']) = parseR (parseTerm po (g + 1)) as.reverse Term.empty := by
+  rw [parseTerm_bracket po g _ (list_inv as hne hinv)]
+  exact parseLinkedList_multi po g as hne (fun a ha => (hinv a ha).elemOK)
+
+/-- the list with a tail variable, as `link_front` builds it: the node of the variable is flagged and counts 1 -/
+def tailListOf (v : Term) : List Term → Term
+  | [] => .cons v Term.empty 1 true
+  | t :: ts => .cons t (tailListOf v ts) (ts.length + 2) false
+
+theorem linkFront_tailListOf (v t : Term) (ts : List Term) : linkFront t false (tailListOf v ts) = .ok (tailListOf v (t :: ts)) := by
+  cases ts with
+  | nil => rfl
+  | cons a rest => simp [tailListOf, linkFront]
+
+theorem parseR_okT (pt : Text → Res Term) (v : Term) : ∀ (ras : List Text) (ts done : List Term), ras.length = ts.length →
+    (∀ (i : Nat) (h1 : i < ras.length) (h2 : i < ts.length), pt ras[i] = .ok ts[i]) →
+    parseR pt ras (tailListOf v done) = .ok (tailListOf v (ts.reverse ++ done))
+  | [], [], _, _, _ => rfl
+  | [], _ :: _, _, h, _ => by simp at h
+  | _ :: _, [], _, h, _ => by simp at h
+  | a :: ras, t :: ts, done, hl, h => by
+    have h0 := h 0 (by simp) (by simp)
+    simp only [List.getElem_cons_zero] at h0
+    have ih := parseR_okT pt v ras ts (t :: done) (by simpa using hl) (fun i h1 h2 => by
+      have := h (i + 1) (by simp; omega) (by simp; omega)
+      simpa using this)
+    simp only [parseR, h0, Res.bind_ok, linkFront_tailListOf, ih]
+    simp
+
+theorem makeLogicVar_word (po : POps) (hα : ∀ c, isLetter c = true → po.isAlpha c = true) {name : Text} (hn : Word name) :
+    makeLogicVar po ('$' :: name) = .ok (.var 0 (str ('$' :: name))) := by
+  have htok := var_token hn
+  cases hs : name with
+  | nil => exact absurd hs hn.1
+  | cons c1 rest =>
+    have hc1 : isLetter c1 = true := hn.2 c1 (by rw [hs]; simp)
+    have htr : trim ('$' :: c1 :: rest) = '$' :: c1 :: rest := by rw [← hs]; exact htok.trim
+    simp only [makeLogicVar, htr, show (('$' : Char) != '$') = false from by decide, hα c1 hc1, Bool.not_true,
+      Bool.false_eq_true, if_false]
+
+/-- a list with a tail variable over texts that carry the invariant -/
+theorem parseTerm_tlist (po : POps) (hα : ∀ c, isLetter c = true → po.isAlpha c = true) (g : Nat) (as : List Text)
+    (hne : as ≠ []) (hinv : ∀ a ∈ as, TextInv a) {name : Text} (hn : Word name) :
+    parseTerm po (g + 4) ('[' :: tailInner as name ++ [']']) =
+      parseR (parseTerm po (g + 1)) as.reverse (tailListOf (.var 0 (str ('$' :: name))) []) := by
+  rw [parseTerm_bracket po g _ (tlist_inv as hne hinv hn)]
+  have hV := var_inv hn
+  exact parseLinkedList_tail po g as ('$' :: name) _ hne (fun a ha => (hinv a ha).elemOK) hV.elemOK
+    (qCount_noquote _ _ hV.noQuote) (makeLogicVar_word po hα hn)
 
 /-! ### canonical texts and their terms -/
 
@@ -430,6 +773,21 @@ inductive Canon : Nat → Text → Term → Prop where
       (hfun : funPrefix (fn ++ '(' :: joinArgs as ++ [')']) = false)
       (hsize : fn.length + (joinArgs as).length + 2 ≤ 1000) :
       Canon (d + 1) (fn ++ '(' :: joinArgs as ++ [')']) (.cplx (.cons (.atom (str fn)) (TermList.ofList ts)))
+  | elist (d : Nat) : Canon d ['[', ']'] Term.empty
+  | phrase (d : Nat) (s : Text) (h : Phrase s) : Canon d s (.atom (str s))
+  | anon (d : Nat) : Canon d ['$', '_'] .anon
+  | list (d : Nat) (as : List Text) (ts : List Term) (hne : as ≠ []) (hlen : as.length = ts.length)
+      (hargs : ∀ (i : Nat) (h1 : i < as.length) (h2 : i < ts.length), Canon d as[i] ts[i]) :
+      Canon (d + 1) ('[' :: joinArgs as ++ [']']) (listOf ts)
+  | tlist (d : Nat) (as : List Text) (ts : List Term) (name : Text) (hne : as ≠ []) (hlen : as.length = ts.length)
+      (hargs : ∀ (i : Nat) (h1 : i < as.length) (h2 : i < ts.length), Canon d as[i] ts[i]) (hn : Word name) :
+      Canon (d + 1) ('[' :: tailInner as name ++ [']']) (tailListOf (.var 0 (str ('$' :: name))) ts)
+
+theorem elist_inv : TextInv ['[', ']'] := by
+  refine ⟨by decide, by simp, by decide, ?_, by decide, ?_, by decide, by decide, by decide, ?_⟩
+  · intro r s; simp [dpScan, dpStep]
+  · intro r s _ _ _; simp [noTopComma, topComma]
+  · intro r s _ _; simp [noTopBar, topBar]
 
 theorem canon_inv {d : Nat} {T : Text} {t : Term} (h : Canon d T t) : TextInv T := by
   induction h with
@@ -442,6 +800,52 @@ theorem canon_inv {d : Nat} {T : Text} {t : Term} (h : Canon d T t) : TextInv T 
     obtain ⟨i, hi, e⟩ := List.mem_iff_getElem.mp ha
     rw [← e]
     exact ih i hi (by omega)
+  | elist d => exact elist_inv
+  | phrase d s h => exact phrase_inv h
+  | anon d => exact anon_inv
+  | list d as ts hne hlen _ ih =>
+    apply list_inv as hne
+    intro a ha
+    obtain ⟨i, hi, e⟩ := List.mem_iff_getElem.mp ha
+    rw [← e]
+    exact ih i hi (by omega)
+  | tlist d as ts name hne hlen _ hn ih =>
+    apply tlist_inv as hne _ hn
+    intro a ha
+    obtain ⟨i, hi, e⟩ := List.mem_iff_getElem.mp ha
+    rw [← e]
+    exact ih i hi (by omega)
+
+theorem canon_not_nil {d : Nat} {T : Text} {t : Term} (h : Canon d T t) : t.isNil = false := by
+  cases h with
+  | int => rfl
+  | word => rfl
+  | var => rfl
+  | cplx => rfl
+  | elist => rfl
+  | phrase => rfl
+  | anon => rfl
+  | list d as ts hne hlen hargs =>
+    cases ts with
+    | nil => rfl
+    | cons a rest => rfl
+  | tlist d as ts name hne hlen hargs hn =>
+    cases ts with
+    | nil => rfl
+    | cons a rest => rfl
+
+theorem parseTerm_elist (po : POps) (f : Nat) : parseTerm po (f + 3) ['[', ']'] = .ok Term.empty := by
+  rw [show f + 3 = (f + 2) + 1 from rfl, parseTerm_structured po (f + 2) _ elist_inv.trimmed elist_inv.nobs (noInfix_of_opOK _ elist_inv.ops),
+    qCount_noquote _ _ elist_inv.noQuote]
+  simp only [checkQuotes_zero, Res.bind_ok]
+  unfold makeTerm
+  simp only [elist_inv.trimmed]
+  simp only [show (('[' : Char) == '$') = false from by decide, Bool.false_eq_true, if_false, List.length_cons, List.length_nil,
+    show (0 + 1 + 1 ≥ 2) = True from by simp, if_true, show (['[', ']'] : Text).getLast? = some ']' from rfl,
+    show (('[' : Char) == '"') = false from by decide, show (('[' : Char) == '[') = true from by decide,
+    show ((']' : Char) == ']') = true from by decide, Bool.and_self]
+  simp only [parseLinkedList, parseLinkedListWith, elist_inv.trimmed]
+  rfl
 
 theorem parseAll_ok (pt : Text → Res Term) : ∀ (as : List Text) (ts : List Term), as.length = ts.length →
     (∀ (i : Nat) (h1 : i < as.length) (h2 : i < ts.length), pt as[i] = .ok ts[i]) → parseAll pt as = .ok ts
@@ -497,11 +901,11 @@ theorem parseTerm_cplx (po : POps) (g : Nat) {fn : Text} (hf : Word fn) (as : Li
 
 /-- PARSING: the canonical text of a term parses to the term -/
 theorem parse_canon (po : POps) (hα : ∀ c, isLetter c = true → po.isAlpha c = true) {d : Nat} {T : Text} {t : Term}
-    (h : Canon d T t) : ∀ f, parseTerm po (2 * d + 2 + f) T = .ok t := by
+    (h : Canon d T t) : ∀ f, parseTerm po (3 * d + 3 + f) T = .ok t := by
   induction h with
-  | int d i hlo hhi => intro f; rw [show 2 * d + 2 + f = (2 * d + f) + 2 from by omega]; exact parseTerm_int po _ i hlo hhi
-  | word d s h => intro f; rw [show 2 * d + 2 + f = (2 * d + f) + 2 from by omega]; exact parseTerm_word po _ h
-  | var d s h => intro f; rw [show 2 * d + 2 + f = (2 * d + f) + 2 from by omega]; exact parseTerm_var po hα _ h
+  | int d i hlo hhi => intro f; rw [show 3 * d + 3 + f = (3 * d + 1 + f) + 2 from by omega]; exact parseTerm_int po _ i hlo hhi
+  | word d s h => intro f; rw [show 3 * d + 3 + f = (3 * d + 1 + f) + 2 from by omega]; exact parseTerm_word po _ h
+  | var d s h => intro f; rw [show 3 * d + 3 + f = (3 * d + 1 + f) + 2 from by omega]; exact parseTerm_var po hα _ h
   | cplx d fn as ts hf hne hlen hargs hfun hsize ih =>
     intro f
     have hinv : ∀ a ∈ as, TextInv a := by
@@ -509,13 +913,53 @@ theorem parse_canon (po : POps) (hα : ∀ c, isLetter c = true → po.isAlpha c
       obtain ⟨i, hi, e⟩ := List.mem_iff_getElem.mp ha
       rw [← e]
       exact canon_inv (hargs i hi (by omega))
-    rw [show 2 * (d + 1) + 2 + f = (2 * d + f) + 4 from by omega, parseTerm_cplx po (2 * d + f) hf as hne hinv hfun hsize]
-    have hall := parseAll_ok (parseTerm po (2 * d + f + 2)) as ts hlen (fun i h1 h2 => by
-      have := ih i h1 h2 f
-      rw [show 2 * d + 2 + f = 2 * d + f + 2 from by omega] at this
+    rw [show 3 * (d + 1) + 3 + f = (3 * d + 2 + f) + 4 from by omega, parseTerm_cplx po (3 * d + 2 + f) hf as hne hinv hfun hsize]
+    have hall := parseAll_ok (parseTerm po (3 * d + 2 + f + 2)) as ts hlen (fun i h1 h2 => by
+      have := ih i h1 h2 (f + 1)
+      rw [show 3 * d + 3 + (f + 1) = 3 * d + 2 + f + 2 from by omega] at this
       exact this)
     rw [hall]
     rfl
+  | elist d => intro f; rw [show 3 * d + 3 + f = (3 * d + f) + 3 from by omega]; exact parseTerm_elist po _
+  | phrase d s h => intro f; rw [show 3 * d + 3 + f = (3 * d + 1 + f) + 2 from by omega]; exact parseTerm_phrase po _ h
+  | anon d => intro f; rw [show 3 * d + 3 + f = (3 * d + 1 + f) + 2 from by omega]; exact parseTerm_anon po _
+  | list d as ts hne hlen hargs ih =>
+    intro f
+    have hinv : ∀ a ∈ as, TextInv a := by
+      intro a ha
+      obtain ⟨i, hi, e⟩ := List.mem_iff_getElem.mp ha
+      rw [← e]
+      exact canon_inv (hargs i hi (by omega))
+    rw [show 3 * (d + 1) + 3 + f = (3 * d + 2 + f) + 4 from by omega, parseTerm_list po (3 * d + 2 + f) as hne hinv]
+    have hall := parseR_ok (parseTerm po (3 * d + 2 + f + 1)) as.reverse ts.reverse [] (by simpa using hlen) (fun i h1 h2 => by
+      simp only [List.length_reverse] at h1 h2
+      have := ih (as.length - 1 - i) (by omega) (by omega) f
+      rw [show 3 * d + 3 + f = 3 * d + 2 + f + 1 from by omega] at this
+      simp only [List.getElem_reverse]
+      rw [this]
+      congr 2
+      omega)
+    rw [show Term.empty = listOf [] from rfl, hall]
+    simp
+  | tlist d as ts name hne hlen hargs hn ih =>
+    intro f
+    have hinv : ∀ a ∈ as, TextInv a := by
+      intro a ha
+      obtain ⟨i, hi, e⟩ := List.mem_iff_getElem.mp ha
+      rw [← e]
+      exact canon_inv (hargs i hi (by omega))
+    rw [show 3 * (d + 1) + 3 + f = (3 * d + 2 + f) + 4 from by omega, parseTerm_tlist po hα (3 * d + 2 + f) as hne hinv hn]
+    have hall := parseR_okT (parseTerm po (3 * d + 2 + f + 1)) (.var 0 (str ('$' :: name))) as.reverse ts.reverse []
+      (by simpa using hlen) (fun i h1 h2 => by
+      simp only [List.length_reverse] at h1 h2
+      have := ih (as.length - 1 - i) (by omega) (by omega) f
+      rw [show 3 * d + 3 + f = 3 * d + 2 + f + 1 from by omega] at this
+      simp only [List.getElem_reverse]
+      rw [this]
+      congr 2
+      omega)
+    rw [hall]
+    simp
 
 /-! ### the printer -/
 
@@ -543,6 +987,46 @@ theorem showArgs_tail (sf : UInt64 → String) : ∀ (as : List Text) (ts : List
     simp only [TermList.ofList, TermList.showArgs, Bool.false_eq_true, if_false, String.toList_append, h0, ih, tailText]
     rfl
 
+theorem showNode_tail (sf : UInt64 → String) : ∀ (as : List Text) (ts : List Term), as.length = ts.length →
+    (∀ (i : Nat) (h1 : i < as.length) (h2 : i < ts.length), (Term.show sf ts[i]).toList = as[i]) →
+    (∀ (i : Nat) (h1 : i < as.length) (h2 : i < ts.length), ts[i].isNil = false) →
+    (Term.showNode sf (listOf ts) false).toList = tailText as
+  | [], [], _, _, _ => by simp [listOf, Term.empty, Term.showNode, Term.isNil, tailText]
+  | [], _ :: _, h, _, _ => by simp at h
+  | _ :: _, [], h, _, _ => by simp at h
+  | a :: as, t :: ts, hl, h, hn => by
+    have h0 := h 0 (by simp) (by simp)
+    have hn0 := hn 0 (by simp) (by simp)
+    simp only [List.getElem_cons_zero] at h0 hn0
+    have ih := showNode_tail sf as ts (by simpa using hl) (fun i h1 h2 => by
+      have := h (i + 1) (by simp; omega) (by simp; omega)
+      simpa using this) (fun i h1 h2 => by
+      have := hn (i + 1) (by simp; omega) (by simp; omega)
+      simpa using this)
+    simp only [listOf, Term.showNode, hn0, Bool.false_eq_true, if_false, String.toList_append, h0, ih, tailText]
+    rfl
+
+theorem showNode_tailT (sf : UInt64 → String) (v : Term) (hv : v.isNil = false) : ∀ (as : List Text) (ts : List Term), as.length = ts.length →
+    (∀ (i : Nat) (h1 : i < as.length) (h2 : i < ts.length), (Term.show sf ts[i]).toList = as[i]) →
+    (∀ (i : Nat) (h1 : i < as.length) (h2 : i < ts.length), ts[i].isNil = false) →
+    (Term.showNode sf (tailListOf v ts) false).toList = tailText as ++ ' ' :: '|' :: ' ' :: (Term.show sf v).toList
+  | [], [], _, _, _ => by
+    simp only [tailListOf, Term.showNode, hv, Bool.false_eq_true, if_false, if_true, Term.empty, show Term.nil.isNil = true from rfl, tailText, String.toList_append]
+    simp
+  | [], _ :: _, h, _, _ => by simp at h
+  | _ :: _, [], h, _, _ => by simp at h
+  | a :: as, t :: ts, hl, h, hn => by
+    have h0 := h 0 (by simp) (by simp)
+    have hn0 := hn 0 (by simp) (by simp)
+    simp only [List.getElem_cons_zero] at h0 hn0
+    have ih := showNode_tailT sf v hv as ts (by simpa using hl) (fun i h1 h2 => by
+      have := h (i + 1) (by simp; omega) (by simp; omega)
+      simpa using this) (fun i h1 h2 => by
+      have := hn (i + 1) (by simp; omega) (by simp; omega)
+      simpa using this)
+    simp only [tailListOf, Term.showNode, hn0, Bool.false_eq_true, if_false, String.toList_append, h0, ih, tailText]
+    simp
+
 /-- PRINTING: the term of a canonical text is printed as that text -/
 theorem show_canon (sf : UInt64 → String) {d : Nat} {T : Text} {t : Term} (h : Canon d T t) : (Term.show sf t).toList = T := by
   induction h with
@@ -567,5 +1051,50 @@ theorem show_canon (sf : UInt64 → String) {d : Nat} {T : Text} {t : Term} (h :
     simp only [Term.show, TermList.showCplx, TermList.ofList, TermList.showArgs, if_true, String.toList_append, str,
       String.toList_ofList, h0, htail, joinArgs_tail]
     simp
+  | elist d => simp [Term.empty, Term.show, Term.isNil]
+  | phrase d s _ => simp [Term.show, str]
+  | anon d => simp [Term.show]
+  | list d as ts hne hlen hargs ih =>
+    obtain ⟨a, rest, has⟩ : ∃ a rest, as = a :: rest := by
+      cases as with
+      | nil => exact absurd rfl hne
+      | cons a rest => exact ⟨a, rest, rfl⟩
+    obtain ⟨t0, trest, hts⟩ : ∃ t0 trest, ts = t0 :: trest := by
+      cases ts with
+      | nil => rw [has] at hlen; simp at hlen
+      | cons t0 trest => exact ⟨t0, trest, rfl⟩
+    subst has; subst hts
+    have h0 := ih 0 (by simp) (by simp)
+    simp only [List.getElem_cons_zero] at h0
+    have hn0 := canon_not_nil (hargs 0 (by simp) (by simp))
+    simp only [List.getElem_cons_zero] at hn0
+    have htail := showNode_tail sf rest trest (by simpa using hlen) (fun i h1 h2 => by
+      have := ih (i + 1) (by simp; omega) (by simp; omega)
+      simpa using this) (fun i h1 h2 => by
+      have := canon_not_nil (hargs (i + 1) (by simp; omega) (by simp; omega))
+      simpa using this)
+    simp only [listOf, Term.show, hn0, Bool.false_eq_true, if_false, String.toList_append, h0, htail, joinArgs_tail]
+    simp
+  | tlist d as ts name hne hlen hargs hn ih =>
+    obtain ⟨a, rest, has⟩ : ∃ a rest, as = a :: rest := by
+      cases as with
+      | nil => exact absurd rfl hne
+      | cons a rest => exact ⟨a, rest, rfl⟩
+    obtain ⟨t0, trest, hts⟩ : ∃ t0 trest, ts = t0 :: trest := by
+      cases ts with
+      | nil => rw [has] at hlen; simp at hlen
+      | cons t0 trest => exact ⟨t0, trest, rfl⟩
+    subst has; subst hts
+    have h0 := ih 0 (by simp) (by simp)
+    simp only [List.getElem_cons_zero] at h0
+    have hn0 := canon_not_nil (hargs 0 (by simp) (by simp))
+    simp only [List.getElem_cons_zero] at hn0
+    have htail := showNode_tailT sf (.var 0 (str ('$' :: name))) rfl rest trest (by simpa using hlen) (fun i h1 h2 => by
+      have := ih (i + 1) (by simp; omega) (by simp; omega)
+      simpa using this) (fun i h1 h2 => by
+      have := canon_not_nil (hargs (i + 1) (by simp; omega) (by simp; omega))
+      simpa using this)
+    simp only [tailListOf, Term.show, hn0, Bool.false_eq_true, if_false, String.toList_append, h0, htail, tailInner, joinArgs_tail]
+    simp [str]
 
 end Suiron.Parse
